@@ -136,6 +136,15 @@ func init() {
 				}
 				return seg{"<%= s %>", "v&amp;"}
 			case 8:
+				// values that are falsy or empty still print what they are
+				switch e.Rng.Intn(4) {
+				case 0:
+					return seg{"<%= n == 4 %>", "false"}
+				case 1:
+					return seg{"<%= !s %>|<%= 0 %>", "false|0"}
+				case 2:
+					return seg{"<%= \"\" %><%= n - 3 %>", "0"}
+				}
 				return seg{"<% let q = 1 %>", ""}
 			case 9:
 				return seg{"<% n = n %>", ""}
